@@ -76,6 +76,12 @@ def make_doc(style, tset="A"):
     if style == "variant":
         return Doc([Op("query", "Op", [Field("i", [TN(), Inline("T", [F(f, tset=tset) for f in fs] + [Field("keep")])])])]), "OpIOnT", {f: f for f in fs}, ["i"]
     gs = ["g%d" % i for i in range(4)]
+    if style == "conditional":
+        # the deprecated fields carry @include: the attribute / the omission must not depend on it
+        def FC(f):
+            x = F(f, tset=tset)
+            return Field(x.name, x.sel, x.alias, x.args, directives=[("include", "c")])
+        return Doc([Op("query", "Op", [Field("t", [FC(f) for f in fs] + [Field("keep")])], [("c", "Boolean!", None)])]), "OpT", {f: f for f in fs}, ["t"]
     if style == "object_copy":
         # the implementing object's own declarations of the interface's fields (never deprecated on the object)
         return Doc([Op("query", "Op", [Field("t", [F(g, tset=tset) for g in gs] + [Field("keep")])])]), "OpT", {("f%d" % i): gs[i] for i in range(4)}, ["t"]
@@ -143,6 +149,9 @@ def run(tier):
             for style in ("direct", "fragment", "variant"):
                 for strat in ("warn", "deny"):
                     cases.append({"assign": assign, "fmt": fmt, "style": style, "strategy": strat, "shift": sum(assign) % 4, "tset": "B"})
+    for assign in itertools.product((0, 1, 2), repeat=4):
+        for strat in ("warn", "deny", "allow"):
+            cases.append({"assign": assign, "fmt": "sdl", "style": "conditional", "strategy": strat, "shift": sum(assign) % 4})
     # the object's own (current) declarations of fields the interface deprecates
     for assign in itertools.product((0, 1, 2), repeat=4):
         for fmt in ("sdl", "json"):
